@@ -34,7 +34,7 @@ type Vars struct {
 	Edge      bool // top depends on //pkg:leaf
 	Other     bool // target //pkg:other exists
 	FlagV     int  // value of the flag read by leaf's package (passed as --pkg.mode=…)
-	Link      int  // 0: no link; 1: dir/link -> ../misc/n.txt; 2: dir/link -> ../misc/m.txt (a symbolic link inside the source directory)
+	Link      int  // 0: no link; 1: dir/link -> ../misc/n.txt; 2: dir/link -> ../misc/m.txt (a symbolic link inside the source directory); 3: dir/link -> nothing (dangling)
 	Late      int  // value of a global that gen's function refers to but that is assigned below the target() call
 	AlwaysGen bool // gen is declared always=True
 	Sabotage  bool // leaf's body removes .dawn/build/temp, so that recording its result fails
@@ -87,6 +87,8 @@ func (v Vars) render() map[string]string {
 		f["dir/link"] = symlinkPrefix + "../misc/n.txt"
 	case 2:
 		f["dir/link"] = symlinkPrefix + "../misc/m.txt"
+	case 3:
+		f["dir/link"] = symlinkPrefix + "../misc/nothing-here" // a dangling link
 	}
 
 	var lib strings.Builder
